@@ -414,6 +414,9 @@ func c15RealFiles(r *ev.Run) {
 		{"format4", "CREATE TABLE t(a); CREATE INDEX i ON t(a DESC); INSERT INTO t VALUES(1),(2);", false, false},
 		{"legacy-format", "CREATE TABLE t(a); INSERT INTO t VALUES(1),(2);", true, false},
 		// schema format 3 with a DESC primary key and no other index on the table: the DESC is not in effect
+		// schema format 3 and a column-level INTEGER PRIMARY KEY DESC: no rowid alias in any format (the DESC that is
+		// ignored is the one of indexes), the column has its own values and its own automatic index
+		{"legacy-format-desc-column-key", "CREATE TABLE t(a); INSERT INTO t VALUES(1),(2); CREATE TABLE da (a INTEGER PRIMARY KEY DESC, v); INSERT INTO da VALUES (30, 'thirty'), (10, 'ten'), (20, 'twenty'); CREATE TABLE db (a INTEGER PRIMARY KEY ASC, v); INSERT INTO db VALUES (30, 'thirty'), (10, 'ten'); CREATE TABLE dc (v, a INTEGER, PRIMARY KEY (a DESC)); INSERT INTO dc VALUES ('thirty', 30), ('ten', 10); ALTER TABLE da ADD COLUMN lg DEFAULT 'x';", true, false},
 		{"legacy-format-desc-key", "CREATE TABLE t(a); INSERT INTO t VALUES(1),(2); CREATE TABLE w (k TEXT, v, PRIMARY KEY (k DESC)) WITHOUT ROWID; INSERT INTO w VALUES ('a', 1), ('b', 2), ('c', 3), ('d', 4); ALTER TABLE w ADD COLUMN lg DEFAULT 'x';", true, false},
 	}
 	for _, c := range cases {
@@ -458,6 +461,21 @@ func c15RealFiles(r *ev.Run) {
 					rows, err3 := SelectAll(h, "t", "a")
 					if err3 != nil || len(rows) != 2 {
 						r.Violation("C15:realfile-misread:"+c.name, fmt.Sprintf("schema-format-%d database: rows=%d err=%v", format, len(rows), err3), art)
+					}
+					if c.legacy {
+						// everything in the file, as SQLite reads it
+						want, werr := LiteDump(l)
+						if e, eerr := OpenEnv(p); eerr == nil {
+							got, gerr := LittleDump(e.H, e.D)
+							e.H.Close()
+							if werr != nil {
+								r.Harness("C15 %s: oracle: %v", c.name, werr)
+							} else if gerr != nil {
+								r.Violation("C15:realfile-misread:"+c.name, fmt.Sprintf("schema-format-%d database: reading every table: %v", format, gerr), art)
+							} else if got.String() != want.String() {
+								r.Violation("C15:realfile-misread:"+c.name, fmt.Sprintf("schema-format-%d database reads differently from SQLite: %s", format, DumpDiff(got, want)), art)
+							}
+						}
 					}
 					if strings.Contains(c.setup, "TABLE w ") {
 						for _, k := range []string{"a", "b", "c", "d"} {
